@@ -47,6 +47,7 @@ def run(F, rep, tier):
     parse_error_dropped(F, rep)
     child_span(F, rep)
     second_definition_is_reported(F, rep)
+    source_text_keeps_its_lines(F, rep)
     # a mismatch between a call's literal arguments and the callee's parameters is the call's: it is found there when the callee
     # has been checked before the caller - which is the dependency order, i.e. every mention is an edge (shared with C11)
     import c11
@@ -945,3 +946,28 @@ def second_definition_is_reported(F, rep, rule="DUP-ORDER"):
                    "definitions of one name the *earlier* can be the one reported, with the offending later one demoted to the "
                    "`first definition is here` note" % (last(fn["_path"], 2), "; ".join(sorted(set(bad)))), line_of(lp))
     rep.floor(rule, "loops that register names and report collisions", n, 3)
+
+
+def source_text_keeps_its_lines(F, rep, rule="LINE"):
+    """Line numbers are counted on the text the tokenizer is given; they are the file's lines only if that text has a line break
+    exactly where the file has one.  Whatever reads a source file hands the text on as it is, or rewrites it with replacements
+    that keep the number of line feeds (`\r\n` -> `\n` does, `\r` -> `\n` turns every CRLF into two lines)."""
+    fn = F.fn("sylt::read_file")
+    rep.analysed(fn)
+    bad = []
+    n = 0
+    for c in nodes(fn_body(fn), "MethodCall"):
+        if c["m"] in ("replace", "replacen", "lines", "trim", "trim_end", "trim_start", "split", "chars", "to_lowercase", "to_uppercase", "retain", "truncate"):
+            n += 1
+            if c["m"] in ("replace", "replacen") and len(c["args"]) >= 2:
+                a, b = peel(c["args"][0]), peel(c["args"][1])
+                if a.get("k") == "Lit" and b.get("k") == "Lit":
+                    if str(a.get("v")).count("\n") == str(b.get("v")).count("\n"):
+                        continue
+                    bad.append((c, "`.replace(%r, %r)` changes the number of line feeds" % (a.get("v"), b.get("v"))))
+                    continue
+            bad.append((c, "`.%s(..)` rewrites the text in a way the rule cannot follow" % c["m"]))
+    rep.ob(rule, "read_file|text-keeps-its-line-feeds", not bad,
+           "the source text is handed on with a line feed exactly where the file has one (%d rewriting calls)" % n if not bad else
+           "sylt::read_file rewrites the source text before it is tokenised: %s - every error in a file with CRLF line endings is "
+           "reported at about twice its line" % bad[0][1], line_of(bad[0][0]) if bad else fn["sp"])
